@@ -61,11 +61,19 @@ Definition twin_agrees (c : case) : bool :=
       | Some r => pres_eqb r (POk (unref e) [])
       | None => false
       end
-  | OErr _ =>
-      (* a SyntaxError: the twin must refuse as well.  WHERE the error is reported is the
-         subject of C17, not an observable of this property, and is not compared. *)
+  | OErr p =>
+      (* a SyntaxError: the twin must refuse as well -- unless the text parses and the error sits
+         at a node of the parsed tree: Parser.Parse also runs the type checker, whose refusals
+         carry a node position (`where (false >= 0.25)`); the parser twin has no checker (the
+         composition with the checker twin, accept / reject / position, is C17's parse_check).
+         WHERE a syntax error is reported is the subject of C17 and is not compared here. *)
       match parse_stmt (ctoks c) with
       | Some (PErr _) => true
+      | Some (POk e _) =>
+          match p with
+          | Some n => existsb (Nat.eqb n) (positions e)
+          | None => false
+          end
       | _ => false
       end
   | OStmt _ => false
